@@ -14,7 +14,9 @@ SimFields == ForkFields
 
 SimInit == Init /\ kind = ""
 Choose == /\ kind = "" /\ Len(hist) < MaxSteps
-          /\ \E k \in Kinds : ENABLED DoKind(k) /\ kind' = k
+          \* every behaviour ends with the caller scribbling over everything it passed in or got back
+          /\ IF Len(hist) = MaxSteps - 1 /\ ENABLED DoKind("scribble") THEN kind' = "scribble"
+             ELSE \E k \in Kinds : ENABLED DoKind(k) /\ kind' = k
           /\ UNCHANGED vars
 Do == kind # "" /\ DoKind(kind) /\ kind' = ""
 Finish == /\ kind = "" /\ Len(hist) = MaxSteps
